@@ -61,7 +61,7 @@ fn reference(c: &Case) -> Expect {
     let cl_bad = vals.iter().any(|v| v.is_none()) || vals.windows(2).any(|w| w[0] != w[1]);
     let no_body = c.method == "HEAD" || (100..200).contains(&c.status) || c.status == 204 || c.status == 304;
     let chunked = c.te.as_deref().map_or(false, |t| {
-        t.split(',').last().map_or(false, |l| l.trim().eq_ignore_ascii_case("chunked"))
+        t.split(|c| c == ',' || c == '|').last().map_or(false, |l| l.trim().eq_ignore_ascii_case("chunked"))
     });
     if no_body {
         return if cl_bad {
@@ -94,14 +94,19 @@ fn wire(c: &Case) -> Vec<u8> {
     for (i, v) in c.cl.iter().enumerate() {
         if i == 1 {
             if let Some(te) = &c.te {
-                w.extend_from_slice(format!("Transfer-Encoding: {te}\r\n").as_bytes());
+                for line in te.split('|') {
+                    w.extend_from_slice(format!("Transfer-Encoding: {line}\r\n").as_bytes());
+                }
             }
         }
         w.extend_from_slice(format!("Content-Length: {v}\r\n").as_bytes());
     }
     if c.cl.len() < 2 {
         if let Some(te) = &c.te {
-            w.extend_from_slice(format!("Transfer-Encoding: {te}\r\n").as_bytes());
+            // '|' separates field lines: a coding list may be spread over several Transfer-Encoding fields
+            for line in te.split('|') {
+                w.extend_from_slice(format!("Transfer-Encoding: {line}\r\n").as_bytes());
+            }
         }
     }
     w.extend_from_slice(b"\r\n");
@@ -250,6 +255,8 @@ pub fn c03(ctx: &Ctx) -> Report {
         Some(" chunked "),
         Some("gzip, chunked"),
         Some("GZIP,Chunked"),
+        Some("gzip|chunked"),
+        Some("GZip|Chunked"),
     ];
     let mut cases = Vec::new();
     for m in methods {
